@@ -112,7 +112,7 @@ Record Inv (s : st) : Prop := mkInv {
   inv_log : forall i, In i (log s) -> i < length (ents s)
 }.
 
-Lemma Inv_init c : Inv (init c).
+Lemma Inv_initZ c : Inv (initZ c).
 Proof.
   constructor; simpl.
   - intros [|i] e H; discriminate.
@@ -278,7 +278,7 @@ Qed.
 Lemma trim_inv s : Inv s -> Inv (trim s).
 Proof.
   intros I. unfold trim.
-  destruct (negb (cap s =? 0) && (cap s <? length (lru s))); [|exact I].
+  destruct (negb (cap s =? 0)%Z && (cap s <? Z.of_nat (length (lru s)))%Z); [|exact I].
   destruct (last (map Some (lru s)) None) as [[k i]|]; [apply evict_key_inv; exact I|exact I].
 Qed.
 
@@ -442,8 +442,14 @@ Proof.
   apply IH. apply step_inv. exact I.
 Qed.
 
+Lemma Inv_init c : Inv (init c).
+Proof. apply Inv_initZ. Qed.
+
+Theorem reach_invZ c os : Inv (exec (initZ c) os).
+Proof. apply exec_inv. apply Inv_initZ. Qed.
+
 Theorem reach_inv c os : Inv (exec (init c) os).
-Proof. apply exec_inv. apply Inv_init. Qed.
+Proof. apply reach_invZ. Qed.
 
 (* ---------- consequences used by Properties/C10.v ---------- *)
 Lemma in_cache_key s i e : Inv s -> nth_error (ents s) i = Some e -> (in_cache s i <-> In (e_key e, i) (lru s)).
@@ -632,7 +638,8 @@ Proof.
 Qed.
 
 (* ---------- capacity bound (LRUCache never holds more than MaxEntries values) ---------- *)
-Definition capinv (s : st) : Prop := cap s <> 0 -> length (lru s) <= cap s.
+Definition capinv (s : st) : Prop :=
+  ((0 < cap s)%Z -> (Z.of_nat (length (lru s)) <= cap s)%Z) /\ ((cap s < 0)%Z -> lru s = []).
 
 Lemma del_length_le l k : length (lru_del l k) <= length l.
 Proof. induction l as [|[k' i] l IH]; simpl; [lia|]. destruct (k' =? k); simpl; lia. Qed.
@@ -682,18 +689,23 @@ Proof.
   destruct l as [|b l']; simpl in *; [discriminate|]. intros H. specialize (IH H). discriminate.
 Qed.
 
-Lemma trim_cap s : Inv s -> length (lru s) <= S (cap s) -> cap (trim s) = cap s /\ capinv (trim s).
+Lemma trim_cap s : Inv s -> (Z.of_nat (length (lru s)) <= Z.succ (Z.max (cap s) 0))%Z ->
+  cap (trim s) = cap s /\ capinv (trim s).
 Proof.
   intros I Hlen. unfold trim, capinv.
-  destruct (Nat.eqb_spec (cap s) 0) as [Hz|Hz]; simpl; [split; [reflexivity|congruence]|].
-  destruct (Nat.ltb_spec (cap s) (length (lru s))) as [Hlt|Hge]; [|split; [reflexivity|intros _; lia]].
-  destruct (last (map Some (lru s)) None) as [[k i]|] eqn:Hl; [|split; [reflexivity|intros _; apply last_some_none in Hl; rewrite Hl in Hlt; simpl in Hlt; lia]].
+  destruct (Z.eqb_spec (cap s) 0) as [Hz|Hz]; simpl; [split; [reflexivity|split; intros; lia]|].
+  destruct (Z.ltb_spec (cap s) (Z.of_nat (length (lru s)))) as [Hlt|Hge].
+  2:{ split; [reflexivity|]. split; [intros _; lia|]. intros Hneg. destruct (lru s); [reflexivity|simpl in Hge; lia]. }
+  destruct (last (map Some (lru s)) None) as [[k i]|] eqn:Hl.
+  2:{ apply last_some_none in Hl. split; [reflexivity|]. rewrite Hl. simpl. split; [intros; lia|reflexivity]. }
   apply last_some_in in Hl.
   pose proof (in_find _ _ _ (inv_nodup _ I) Hl) as Hf.
   unfold evict_key. rewrite Hf.
   match goal with |- context [finalize ?s' ?j] => destruct (finalize_shape s' j) as [-> ->] end. simpl.
-  split; [reflexivity|]. intros _.
-  pose proof (del_length_found _ _ _ (inv_nodup _ I) Hf). lia.
+  pose proof (del_length_found _ _ _ (inv_nodup _ I) Hf) as Hd.
+  split; [reflexivity|]. split.
+  - intros Hpos. lia.
+  - intros Hneg. destruct (lru_del (lru s) k) eqn:E; [reflexivity|]. simpl in Hd. rewrite Z.max_r in Hlen by lia. lia.
 Qed.
 
 Lemma touch_length s k i : Inv s -> lru_find (lru s) k = Some i -> length (lru (touch s k i)) = length (lru s).
@@ -707,8 +719,15 @@ Proof.
   destruct (j =? i); simpl; rewrite ?Hc, ?Hl; split; auto. apply del_length_le.
 Qed.
 
-Lemma trim_cap0 s : cap s = 0 -> trim s = s.
+Lemma trim_cap0 s : cap s = 0%Z -> trim s = s.
 Proof. intros H. unfold trim. rewrite H. reflexivity. Qed.
+
+Lemma capinv_shrink s s' : cap s' = cap s -> length (lru s') <= length (lru s) -> capinv s -> capinv s'.
+Proof.
+  intros Hc Hl [C1 C2]. unfold capinv. rewrite Hc. split.
+  - intros Hp. specialize (C1 Hp). lia.
+  - intros Hn. specialize (C2 Hn). rewrite C2 in Hl. simpl in Hl. destruct (lru s'); [reflexivity|simpl in Hl; lia].
+Qed.
 
 Lemma step_add_hit s k i : lru_find (lru s) k = Some i -> step s (Add k) = (acquire (touch s k i) i, Some (i, false)).
 Proof. intros H. simpl. rewrite H. reflexivity. Qed.
@@ -719,39 +738,45 @@ Proof. intros H. simpl. rewrite H. reflexivity. Qed.
 
 Theorem step_capinv s o : Inv s -> capinv s -> cap (fst (step s o)) = cap s /\ capinv (fst (step s o)).
 Proof.
-  intros I C. unfold capinv in *.
+  intros I C.
   destruct o as [k|k|k|k|h ev].
   - destruct (lru_find (lru s) k) as [i|] eqn:Hf.
-    + rewrite (step_add_hit _ _ _ Hf). cbn [fst]. destruct (acquire_shape (touch s k i) i) as [-> ->].
-      simpl. split; [reflexivity|]. intros Hc. rewrite (del_length_found _ _ _ (inv_nodup _ I) Hf). auto.
+    + rewrite (step_add_hit _ _ _ Hf). cbn [fst]. destruct (acquire_shape (touch s k i) i) as [Hc Hl].
+      split; [rewrite Hc; reflexivity|]. apply (capinv_shrink s); [rewrite Hc; reflexivity| |exact C].
+      rewrite Hl. rewrite (touch_length _ _ _ I Hf). lia.
     + rewrite (step_add_new _ _ Hf). cbn [fst].
       assert (Hcap : cap (add_new s k) = cap s) by (unfold add_new, acquire, inc; simpl; destruct (nth_error _ _); reflexivity).
       assert (Hlru : lru (add_new s k) = (k, length (ents s)) :: lru s) by (unfold add_new, acquire, inc; simpl; destruct (nth_error _ _); reflexivity).
-      destruct (Nat.eq_dec (cap s) 0) as [Hz|Hz].
-      * rewrite trim_cap0 by (rewrite Hcap; exact Hz). split; [exact Hcap|]. intros Hn. exfalso. apply Hn. rewrite Hcap. exact Hz.
+      destruct (Z.eq_dec (cap s) 0) as [Hz|Hz].
+      * rewrite trim_cap0 by (rewrite Hcap; exact Hz). split; [exact Hcap|]. unfold capinv. rewrite Hcap, Hz. split; intros; lia.
       * destruct (trim_cap (add_new s k) (add_new_inv s k I Hf)) as [Hc' Hi'].
-        { rewrite Hlru, Hcap. simpl. specialize (C Hz). lia. }
-        rewrite Hc', Hcap. split; [reflexivity|]. unfold capinv in Hi'. rewrite Hc', Hcap in Hi'. exact Hi'.
+        { rewrite Hlru, Hcap. destruct C as [C1 C2]. cbn [length]. rewrite Nat2Z.inj_succ.
+          destruct (Z.lt_trichotomy (cap s) 0) as [Hn|[Hn|Hp]]; [|contradiction|].
+          - rewrite (C2 Hn). simpl. lia.
+          - specialize (C1 Hp). lia. }
+        rewrite Hc', Hcap. split; [reflexivity|exact Hi'].
   - destruct (lru_find (lru s) k) as [i|] eqn:Hf; [rewrite (step_get_hit _ _ _ Hf)|rewrite (step_get_miss _ _ Hf); auto].
-    cbn [fst]. destruct (acquire_shape (touch s k i) i) as [-> ->]. simpl. split; [reflexivity|].
-    intros Hc. rewrite (del_length_found _ _ _ (inv_nodup _ I) Hf). auto.
-  - simpl. destruct (evict_key_shape s k) as [-> Hl]. split; [reflexivity|intros Hc; specialize (C Hc); lia].
-  - simpl. destruct (evict_key_shape s k) as [-> Hl]. split; [reflexivity|intros Hc; specialize (C Hc); lia].
+    cbn [fst]. destruct (acquire_shape (touch s k i) i) as [Hc Hl].
+    split; [rewrite Hc; reflexivity|]. apply (capinv_shrink s); [rewrite Hc; reflexivity| |exact C].
+    rewrite Hl. rewrite (touch_length _ _ _ I Hf). lia.
+  - simpl. destruct (evict_key_shape s k) as [Hc Hl]. split; [exact Hc|apply (capinv_shrink s); assumption].
+  - simpl. destruct (evict_key_shape s k) as [Hc Hl]. split; [exact Hc|apply (capinv_shrink s); assumption].
   - simpl. destruct (nth_error (hs s) h) as [[i fired]|]; simpl; [|auto].
     set (s1 := if fired then s else dec (set_hs s (upd (hs s) h (i, true))) i).
     assert (H1 : cap s1 = cap s /\ lru s1 = lru s).
     { unfold s1. destruct fired; [auto|]. match goal with |- context [dec ?s' i] => destruct (dec_shape s' i) as [-> ->] end. auto. }
     destruct H1 as [Hc1 Hl1].
     destruct ev.
-    + change (cap (rel_evict s1 i) = cap s /\ (cap (rel_evict s1 i) <> 0 -> length (lru (rel_evict s1 i)) <= cap (rel_evict s1 i))).
-      destruct (rel_evict_shape s1 i) as [-> Hl]. rewrite Hc1. split; [reflexivity|]. intros Hc. specialize (C Hc). rewrite Hl1 in Hl. lia.
-    + rewrite Hc1, Hl1. auto.
+    + change (cap (rel_evict s1 i) = cap s /\ capinv (rel_evict s1 i)).
+      destruct (rel_evict_shape s1 i) as [Hc Hl]. split; [rewrite Hc; exact Hc1|].
+      apply (capinv_shrink s); [rewrite Hc; exact Hc1|rewrite <- Hl1; exact Hl|exact C].
+    + split; [exact Hc1|]. apply (capinv_shrink s); [exact Hc1|rewrite Hl1; lia|exact C].
 Qed.
 
-Theorem reach_capinv c os : cap (exec (init c) os) = c /\ capinv (exec (init c) os).
+Theorem reach_capinv c os : cap (exec (initZ c) os) = c /\ capinv (exec (initZ c) os).
 Proof.
   assert (G : forall os s, Inv s -> capinv s -> cap (exec s os) = cap s /\ capinv (exec s os)).
   { unfold exec. induction os0 as [|o os0 IH]; simpl; intros s I C; [auto|].
     destruct (step_capinv s o I C) as [Hc Hi]. destruct (IH _ (step_inv s o I) Hi) as [Hc' Hi']. rewrite Hc', Hc. auto. }
-  apply G; [apply Inv_init|]. unfold capinv. simpl. intros _. lia.
+  apply G; [apply Inv_initZ|]. unfold capinv. simpl. split; [intros Hp; lia|intros _; reflexivity].
 Qed.
